@@ -4,6 +4,7 @@
 From Coq Require Import ZArith NArith List Bool Lia.
 Import ListNotations.
 From SV Require Import Common.Int32 C01expr.Syntax C01expr.SrcSem C01expr.HirSem C01expr.Lower.
+From SV Require C01pat.Proofs.
 
 (* ------------------------------------------------------------------ scope stack *)
 Lemma assoc_not_key : forall x (s : list (name * name)), (forall y, ~ In (x, y) s) -> assoc x s = None.
@@ -99,6 +100,18 @@ Proof.
     apply keys_in_app. intros s Hs. apply K. right; auto.
     apply keys_in_cons; [|apply keys_in_nil]. intros x y H. rewrite app_nil_r in H. eauto.
 Qed.
+(* a block-style extension seen from below the pushed scope, when that scope is never popped *)
+Lemma extB_push_stay : forall B cx cx1, extB B (push cx) cx1 -> extE B cx cx1.
+Proof.
+  intros B cx cx1 (ex & nw & s & rest & E & -> & K & N). unfold push in E. injection E as <- <-.
+  exists (ex ++ [nw ++ []]). split. now rewrite <- app_assoc.
+  apply keys_in_app; auto. apply keys_in_cons; [|apply keys_in_nil]. intros x y H. rewrite app_nil_r in H. eauto.
+Qed.
+Lemma extB_weaken : forall B B' cx cx', extB B cx cx' -> incl B B' -> extB B' cx cx'.
+Proof.
+  intros B B' cx cx' (ex & nw & s & rest & -> & -> & K & N) I. exists ex, nw, s, rest. repeat split; auto.
+  eapply keys_in_weaken; eauto. intros x y H. apply I. eapply N; eauto.
+Qed.
 (* the pop_scope of lower_if_else, and the early returns that skip it *)
 Lemma extE_push_stay : forall B cx cx1, extE B (push cx) cx1 -> extE B cx cx1.
 Proof.
@@ -141,12 +154,23 @@ Qed.
 Lemma ns_bv_all :
   (forall e D, ns D e -> forall x, In x D -> ~ In x (bv e)) /\
   (forall es D, nss D es -> forall x, In x D -> ~ In x (bvs es)) /\
+  (forall cs D, nsa D cs -> forall x, In x D -> ~ In x (bva cs)) /\
   (forall b D, nsb D b -> forall x, In x D -> ~ In x (bvb b)).
 Proof.
   apply syntax_mind; simpl; intros; auto;
     try (intros Hin; repeat (apply in_app_or in Hin as [Hin|Hin]);
          repeat match goal with H : _ /\ _ |- _ => destruct H end;
          match goal with IH : forall D, _ -> forall x, In x D -> ~ In x ?l, Hi : In _ ?l |- _ => eapply IH; eauto end; fail).
+  - (* EIfLet *)
+    destruct H2 as (He & (_ & _ & _ & Hbs & _) & H1' & H2'). intros Hin.
+    apply in_app_or in Hin as [Hin|Hin]. eapply H; eauto.
+    apply in_app_or in Hin as [Hin|Hin]. eapply Hbs; eauto.
+    apply in_app_or in Hin as [Hin|Hin]; [eapply H0|eapply H1]; eauto; apply in_or_app; auto.
+  - (* ACons *)
+    destruct H1 as ((_ & _ & _ & Hbs & _) & Hb & Ht). intros Hin.
+    apply in_app_or in Hin as [Hin|Hin]. eapply H0; eauto.
+    apply in_app_or in Hin as [Hin|Hin]. eapply Hbs; eauto.
+    eapply H; eauto. apply in_or_app; auto.
   - (* BLet *)
     destruct x as [x|]; simpl in *.
     + destruct H1 as (He & Hx & Hb). intros Hin.
@@ -159,10 +183,16 @@ Proof.
     apply in_app_or in Hin as [Hin|Hin]. eapply H; eauto.
     apply in_app_or in Hin as [Hin|Hin]. eapply Hbs; eauto.
     eapply H0; eauto. apply in_or_app; auto.
+  - (* BLetP *)
+    destruct H1 as (He & (_ & _ & _ & Hbs & _) & Hb). intros Hin.
+    apply in_app_or in Hin as [Hin|Hin]. eapply H; eauto.
+    apply in_app_or in Hin as [Hin|Hin]. eapply Hbs; eauto.
+    eapply H0; eauto. apply in_or_app; auto.
 Qed.
 Definition ns_bv := proj1 ns_bv_all.
 Definition nss_bvs := proj1 (proj2 ns_bv_all).
-Definition nsb_bvb := proj2 (proj2 ns_bv_all).
+Definition nsa_bva := proj1 (proj2 (proj2 ns_bv_all)).
+Definition nsb_bvb := proj2 (proj2 (proj2 ns_bv_all)).
 
 Lemma memb_In : forall x l, memb x l = true <-> In x l.
 Proof.
@@ -183,23 +213,40 @@ Proof.
   - intros H. exists (Some x). split; auto. left; auto.
 Qed.
 
+Lemma negb_memb_notin : forall x D, negb (memb x D) = true -> ~ In x D.
+Proof. intros x D H Hin. apply memb_In in Hin. rewrite Hin in H. discriminate. Qed.
+Lemma forallb_notin : forall bs D, forallb (fun x => negb (memb x D)) bs = true -> forall x, In x bs -> ~ In x D.
+Proof. intros bs D H x Hx. rewrite forallb_forall in H. apply negb_memb_notin. auto. Qed.
+Lemma els_keys_iff : forall els bs,
+  forallb (fun x => memb x bs) (el_names els) = true -> forallb (fun x => memb x (el_names els)) bs = true ->
+  forall x, In (Some x) els <-> In x bs.
+Proof.
+  intros els bs H1 H2 x. rewrite forallb_forall in H1, H2. split; intros Hx.
+  - apply memb_In. apply H1. apply el_names_In. auto.
+  - apply el_names_In. apply memb_In. auto.
+Qed.
+Lemma inclb_incl : forall a b, Syntax.inclb a b = true -> incl a b.
+Proof. intros a b H x Hx. unfold Syntax.inclb in H. rewrite forallb_forall in H. apply memb_In. auto. Qed.
+Lemma site_okB_sound : forall D p bs, site_okB D p bs = true -> site_ok D p bs.
+Proof.
+  intros D p bs H. unfold site_okB in H.
+  repeat match goal with H : _ && _ = true |- _ => apply andb_true_iff in H; destruct H end.
+  repeat split; auto using C01pat.Proofs.wfb_sound, nodupb_NoDup, inclb_incl. eapply forallb_notin; eauto.
+Qed.
+
 Lemma nsB_all :
   (forall e D, nsB D e = true -> ns D e) /\
   (forall es D, nssB D es = true -> nss D es) /\
+  (forall cs D, nsaB D cs = true -> nsa D cs) /\
   (forall b D, nsbB D b = true -> nsb D b).
 Proof.
   apply syntax_mind; simpl; intros; auto;
-    repeat match goal with H : _ && _ = true |- _ => apply andb_true_iff in H; destruct H end; repeat split; auto.
-  destruct x as [x|]; simpl in *;
-    repeat match goal with H : _ && _ = true |- _ => apply andb_true_iff in H; destruct H end; repeat split; auto.
-  - intros Hin. apply negb_true_iff in H3. unfold memb in H3.
-    assert (existsb (N.eqb x) D = true); [|congruence].
-    apply existsb_exists. exists x. split; auto. apply N.eqb_refl.
-  - apply nodupb_NoDup; auto.
-  - intros Hx. apply el_names_In in Hx. rewrite forallb_forall in H5. apply memb_In. auto.
-  - intros Hx. apply el_names_In. rewrite forallb_forall in H4. apply memb_In. auto.
-  - intros x Hx Hin. rewrite forallb_forall in H3. specialize (H3 x Hx). apply negb_true_iff in H3.
-    apply memb_In in Hin. congruence.
+    try (destruct x as [x|]; simpl in * );
+    repeat match goal with H : _ && _ = true |- _ => apply andb_true_iff in H; destruct H end;
+    repeat split; auto using site_okB_sound, negb_memb_notin, nodupb_NoDup;
+    try (eapply forallb_notin; eauto; fail);
+    try (eapply els_keys_iff; eauto; fail);
+    try (match goal with H : site_okB _ _ _ = true |- _ => apply site_okB_sound in H; destruct H as (?&?&?&?&?); assumption end).
 Qed.
 
 (* ------------------------------------------------------------------ environments, frames *)
@@ -218,7 +265,6 @@ Qed.
 Section Frames.
   Variable tmp : nat -> name.
   Notation low := (Lower.low tmp).
-  Notation offr := (Lower.offr tmp).
   Notation frame := (Lower.frame tmp).
   Notation stable := (Lower.stable tmp).
   Notation inv := (Lower.inv tmp).
@@ -227,8 +273,6 @@ Section Frames.
 
   Lemma low_mono : forall n n' y, low n y -> (n <= n')%nat -> low n' y.
   Proof. intros n n' y H Hle i Hi. apply H. lia. Qed.
-  Lemma low_offr : forall n n' y, low n y -> offr n n' y.
-  Proof. intros n n' y H i Hi _. apply H; auto. Qed.
   Lemma low_tmp : forall k n, (k < n)%nat -> low n (tmp k).
   Proof. intros k n H i Hi E. apply tmp_inj in E. lia. Qed.
   Lemma stable_mono : forall n n' r, stable n r -> (n <= n')%nat -> stable n' r.
@@ -240,10 +284,10 @@ Section Frames.
     frame n n1 s s1 -> frame n1 n2 s1 s2 -> (n <= n1)%nat -> (n1 <= n2)%nat -> frame n n2 s s2.
   Proof.
     intros n n1 n2 s s1 s2 F1 F2 L1 L2 y Hy.
-    rewrite F2, F1; auto; intros i Hi Hi'; apply Hy; lia.
+    rewrite F2, F1; auto. eapply low_mono; eauto.
   Qed.
   Lemma frame_widen : forall n n1 m m1 s s1, frame n n1 s s1 -> (m <= n)%nat -> (n1 <= m1)%nat -> frame m m1 s s1.
-  Proof. intros n n1 m m1 s s1 F L1 L2 y Hy. apply F. intros i Hi Hi'. apply Hy; lia. Qed.
+  Proof. intros n n1 m m1 s s1 F L1 L2 y Hy. apply F. eapply low_mono; eauto. Qed.
   Lemma frame_upd : forall n n' s k v, (n <= k)%nat -> (k < n')%nat -> frame n n' s (upd s (tmp k) v).
   Proof. intros n n' s k v L1 L2 y Hy. apply upd_other. intros ->. eapply Hy; eauto. Qed.
   Lemma frame_upd_r : forall n n' s s' k v,
@@ -251,7 +295,7 @@ Section Frames.
   Proof. intros n n' s s' k v F L1 L2 y Hy. rewrite upd_other. apply F; auto. intros ->. eapply Hy; eauto. Qed.
 
   Lemma heval_stable : forall n n' s s' r, stable n r -> frame n n' s s' -> heval s' r = heval s r.
-  Proof. intros n n' s s' [] H F; simpl in *; auto. apply F. apply low_offr; auto. Qed.
+  Proof. intros n n' s s' [] H F; simpl in *; auto. Qed.
 
   (* ------------------------------------------------------------------ the invariant *)
 
@@ -264,7 +308,7 @@ Section Frames.
     destruct (HI x v Hx) as (y & Hr & Hs & Hl).
     exists y. repeat split.
     - rewrite HR; auto. apply HB. apply HD. congruence.
-    - rewrite HF; auto. apply low_offr; auto.
+    - rewrite HF; auto.
     - eapply low_mono; eauto.
   Qed.
 
@@ -297,6 +341,8 @@ Section Shape.
     forall cx n ss re n' cx', lower ver tmp e cx n = (ss, re, n', cx') -> (n <= n')%nat /\ extE (bv e) cx cx'.
   Definition Sh_args (es : exprs) : Prop :=
     forall cx n ss rs n' cx', lower_args ver tmp es cx n = (ss, rs, n', cx') -> (n <= n')%nat /\ extE (bvs es) cx cx'.
+  Definition Sh_arms (cs : arms) : Prop :=
+    forall re coll cx n ss rr n' cx', lower_arms ver tmp cs re coll cx n = (ss, rr, n', cx') -> (n <= n')%nat /\ extE (bva cs) cx cx'.
   Definition Sh_blk (b : blk) : Prop :=
     forall cx n ss re n' cx', lower_blk ver tmp b cx n = (ss, re, n', cx') -> cx <> [] -> (n <= n')%nat /\ extB (bvb b) cx cx'.
 
@@ -304,9 +350,17 @@ Section Shape.
     destruct (IH1 _ _ _ _ _ _ E1) as (?L & ?X); destruct (IH2 _ _ _ _ _ _ E2) as (?L & ?X);
     split; [lia|eapply extE_trans; eauto using incl_appl, incl_appr].
 
-  Lemma shape_all : (forall e, Sh_expr e) /\ (forall es, Sh_args es) /\ (forall b, Sh_blk b).
+  Lemma guard_cnt : forall p bs r n gs gc n1, guard tmp p bs r n = (gs, gc, n1) -> (n + length bs <= n1)%nat.
   Proof.
-    apply syntax_mind; unfold Sh_expr, Sh_args, Sh_blk; intros; simpl in *.
+    intros p bs r n gs gc n1 H. unfold guard, C01pat.Lower.lower_guard in H.
+    pose proof (C01pat.Proofs.lower_pattern_mono tmp (C01pat.Lower.bn_of tmp bs n) p (pe r) (n + length bs)) as M.
+    destruct (C01pat.Lower.lower_pattern tmp (C01pat.Lower.bn_of tmp bs n) p (pe r) (n + length bs)) as [[ps c] k].
+    inversion H; subst. exact M.
+  Qed.
+
+  Lemma shape_all : (forall e, Sh_expr e) /\ (forall es, Sh_args es) /\ (forall cs, Sh_arms cs) /\ (forall b, Sh_blk b).
+  Proof.
+    apply syntax_mind; unfold Sh_expr, Sh_args, Sh_arms, Sh_blk; intros; simpl in *.
     - inversion H; subst. split; [lia|apply extE_refl].
     - inversion H; subst. split; [lia|apply extE_refl].
     - inversion H; subst. split; [lia|apply extE_refl].
@@ -373,6 +427,44 @@ Section Shape.
       destruct (lower_blk ver tmp b (push cx) n) as [[[s1 r1] n1] cx1] eqn:E1. inversion H0; subst.
       destruct (H _ _ _ _ _ _ E1) as (L & X). unfold push; congruence.
       split; [lia|]. apply extB_pop; auto.
+    - (* EMatch *)
+      destruct (lower ver tmp e cx n) as [[[s1 r1] n1] cx1] eqn:E1.
+      destruct (lower_arms ver tmp cases r1 (tmp n1) cx1 (S n1)) as [[[s2 r2] n2] cx2] eqn:E2. inversion H1; subst.
+      destruct (H _ _ _ _ _ _ E1) as (L1 & X1). destruct (H0 _ _ _ _ _ _ _ _ E2) as (L2 & X2).
+      split; [lia|eapply extE_trans; eauto using incl_appl, incl_appr].
+    - (* EIfLet *)
+      destruct (lower ver tmp e (push cx) n) as [[[se rs] n1] cx1] eqn:E1.
+      destruct (guard tmp p bs rs n1) as [[gs gc] n2] eqn:G.
+      pose proof (guard_cnt _ _ _ _ _ _ _ G) as LG.
+      destruct (H _ _ _ _ _ _ E1) as (L1 & X1).
+      assert (Hne1 : cx1 <> []).
+      { destruct X1 as (ex & -> & _). destruct ex; simpl; unfold push; congruence. }
+      assert (XI : extB (bv e ++ bs) (push cx) (insert_all tmp cx1 bs n1)).
+      { eapply extB_trans; [apply extE_extB; [unfold push; congruence|exact X1]|apply extB_insert_all; [exact Hne1|apply incl_refl]
+                           |apply incl_appl|apply incl_appr]. }
+      assert (Hne2 : insert_all tmp cx1 bs n1 <> []) by (eapply extB_nonempty; eauto).
+      destruct (is_lit gc 1).
+      { destruct (lower ver tmp e1 (insert_all tmp cx1 bs n1) n2) as [[[s1 r1] n3] cx3] eqn:E2. inversion H2; subst.
+        destruct (H0 _ _ _ _ _ _ E2) as (L2 & X2). split; [lia|].
+        apply extB_push_stay.
+        eapply extB_trans; [exact XI|apply extE_extB; eauto| |].
+        - intros x Hx. rewrite !in_app_iff in *. tauto.
+        - intros x Hx. rewrite !in_app_iff in *. tauto. }
+      destruct (is_lit gc 0).
+      { destruct (lower ver tmp e2 (insert_all tmp cx1 bs n1) n2) as [[[s1 r1] n3] cx3] eqn:E2. inversion H2; subst.
+        destruct (H1 _ _ _ _ _ _ E2) as (L2 & X2). split; [lia|].
+        apply extB_push_stay.
+        eapply extB_trans; [exact XI|apply extE_extB; eauto| |].
+        - intros x Hx. rewrite !in_app_iff in *. tauto.
+        - intros x Hx. rewrite !in_app_iff in *. tauto. }
+      destruct (lower ver tmp e1 (insert_all tmp cx1 bs n1) (S n2)) as [[[s1 r1] n3] cx3] eqn:E2.
+      destruct (lower ver tmp e2 cx3 n3) as [[[s2 r2] n4] cx4] eqn:E3. inversion H2; subst.
+      destruct (H0 _ _ _ _ _ _ E2) as (L2 & X2). destruct (H1 _ _ _ _ _ _ E3) as (L3 & X3).
+      split; [lia|]. apply extB_pop.
+      assert (X23 : extE (bv e1 ++ bv e2) (insert_all tmp cx1 bs n1) cx4) by (eapply extE_trans; eauto using incl_appl, incl_appr).
+      eapply extB_trans; [exact XI|apply extE_extB; eauto| |].
+      + intros x Hx. rewrite !in_app_iff in *. tauto.
+      + intros x Hx. rewrite !in_app_iff in *. tauto.
     - (* ELambda *)
       destruct caps as [|c0 ct].
       + destruct (lower ver tmp body (lambda_cx tmp [] params (S n)) (if memb this_name [] then S (S n) else S n))
@@ -387,6 +479,19 @@ Section Shape.
       destruct (lower ver tmp e cx n) as [[[s1 r1] n1] cx1] eqn:E1.
       destruct (lower_args ver tmp es cx1 n1) as [[[s2 r2] n2] cx2] eqn:E2. inversion H1; subst.
       two H H0 E1 E2.
+    - (* ANil *) inversion H; subst. split; [lia|apply extE_refl].
+    - (* ACons *)
+      destruct (lower_arms ver tmp rest re coll cx n) as [[[acc_s acc_e] n1] cx1] eqn:E1.
+      destruct (guard tmp p bs re (S n1)) as [[gs gc] n2] eqn:G.
+      destruct (lower ver tmp body (insert_all tmp (push cx1) bs (S n1)) n2) as [[[sb rb] n3] cx3] eqn:E2. inversion H1; subst.
+      pose proof (guard_cnt _ _ _ _ _ _ _ G) as LG.
+      destruct (H0 _ _ _ _ _ _ _ _ E1) as (L1 & X1). destruct (H _ _ _ _ _ _ E2) as (L2 & X2).
+      split; [lia|].
+      assert (XI : extB bs (push cx1) (insert_all tmp (push cx1) bs (S n1))).
+      { apply extB_insert_all; [unfold push; congruence|apply incl_refl]. }
+      assert (XP : extE (bs ++ bv body) cx1 (pop cx3)).
+      { apply extB_pop. eapply extB_trans; [exact XI|apply extE_extB; [eapply extB_nonempty; eauto|exact X2]|apply incl_appl|apply incl_appr]. }
+      eapply extE_trans; [exact X1|exact XP|apply incl_appl|apply incl_appr].
     - (* BEndU *) inversion H; subst. split; [lia|]. apply extE_extB; auto. apply extE_refl.
     - (* BEndE *) destruct (H _ _ _ _ _ _ H0) as (L & X). split; auto. apply extE_extB; auto.
     - (* BLet *)
@@ -421,6 +526,20 @@ Section Shape.
       split; [lia|].
       eapply extB_trans; [apply extE_extB; eauto| |apply incl_appl|apply incl_appr].
       eapply extB_trans; eauto using incl_appl, incl_appr.
+    - (* BLetP *)
+      destruct (lower ver tmp e cx n) as [[[s1 r1] n1] cx1] eqn:E1.
+      destruct (guard tmp p bs r1 n1) as [[gs gc] n2] eqn:G.
+      destruct (lower_blk ver tmp b (insert_all tmp cx1 bs n1) n2) as [[[s2 r2] n3] cx2] eqn:E2.
+      inversion H1; subst.
+      pose proof (guard_cnt _ _ _ _ _ _ _ G) as LG.
+      destruct (H _ _ _ _ _ _ E1) as (L1 & X1).
+      assert (Hne1 : cx1 <> []).
+      { destruct X1 as (ex & -> & _). destruct ex; simpl; auto. congruence. }
+      assert (XI : extB bs cx1 (insert_all tmp cx1 bs n1)) by (apply extB_insert_all; auto; apply incl_refl).
+      destruct (H0 _ _ _ _ _ _ E2) as (L2 & X2). eapply extB_nonempty; eauto.
+      split; [lia|].
+      eapply extB_trans; [apply extE_extB; eauto| |apply incl_appl|apply incl_appr].
+      eapply extB_trans; eauto using incl_appl, incl_appr.
     - (* BExp *)
       destruct (lower ver tmp e cx n) as [[[s1 r1] n1] cx1] eqn:E1.
       destruct (lower_blk ver tmp b cx1 n1) as [[[s2 r2] n2] cx2] eqn:E2. inversion H1; subst.
@@ -433,7 +552,8 @@ Section Shape.
   Qed.
   Definition shape_expr := proj1 shape_all.
   Definition shape_args := proj1 (proj2 shape_all).
-  Definition shape_blk := proj2 (proj2 shape_all).
+  Definition shape_arms := proj1 (proj2 (proj2 shape_all)).
+  Definition shape_blk := proj2 (proj2 (proj2 shape_all)).
 End Shape.
 
 (* ------------------------------------------------------------------ unfolding equations of SrcSem (the mutual fixpoint does not refold under cbn) *)
@@ -443,6 +563,7 @@ Section SevalEq.
   Notation seval := (seval w cf).
   Notation seval_args := (seval_args w cf).
   Notation seval_blk := (seval_blk w cf).
+  Notation seval_arms := (seval_arms w cf).
 
   Lemma seval_EVar : forall r x tr, seval r (EVar x) tr = match r x with Some v => SVal v tr | None => SFail FStuck end.
   Proof. reflexivity. Qed.
@@ -533,6 +654,41 @@ Section SevalEq.
     end.
   Proof. reflexivity. Qed.
   Lemma seval_EBlock : forall r b tr, seval r (EBlock b) tr = seval_blk r b tr.
+  Proof. reflexivity. Qed.
+  Lemma seval_EMatch : forall r e cs tr, seval r (EMatch e cs) tr =
+    match seval r e tr with SVal v tr1 => seval_arms r cs v tr1 | o => o end.
+  Proof. reflexivity. Qed.
+  Lemma seval_EIfLet : forall r p bs e e1 e2 tr, seval r (EIfLet p bs e e1 e2) tr =
+    match seval r e tr with
+    | SVal v tr1 =>
+        if sshape p v then
+          match smatch p v with
+          | Some b => seval (bind_all r b) e1 tr1
+          | None => seval r e2 tr1
+          end
+        else SFail FStuck
+    | o => o
+    end.
+  Proof. reflexivity. Qed.
+  Lemma seval_arms_ACons : forall r p bs body t v tr, seval_arms r (ACons p bs body t) v tr =
+    if sshape p v then
+      match smatch p v with
+      | Some b => seval (bind_all r b) body tr
+      | None => seval_arms r t v tr
+      end
+    else SFail FStuck.
+  Proof. reflexivity. Qed.
+  Lemma seval_blk_BLetP : forall r p bs e b tr, seval_blk r (BLetP p bs e b) tr =
+    match seval r e tr with
+    | SVal v tr1 =>
+        if sshape p v then
+          match smatch p v with
+          | Some bd => seval_blk (bind_all r bd) b tr1
+          | None => SFail FStuck
+          end
+        else SFail FStuck
+    | o => o
+    end.
   Proof. reflexivity. Qed.
   Lemma seval_ELambda : forall r l caps params body tr, seval r (ELambda l caps params body) tr =
     match lookups r caps with
